@@ -286,13 +286,9 @@ func laws(sel int, in, got []int64, law func(lsel int, lin []int64, sig string))
 		lin = append(lin, before...)
 		lin = append(lin, after...)
 		lin = append(lin, int64(len(ob.newBind)), int64(len(ob.newEv)))
-		sig := ""
-		if o.Code == 11 && ob.res == 1 && w.Tasks[tid].Status == api.Allocated {
-			// known finding: the placement succeeded, a dispatch (AddBindTask) was refused, and
-			// Session.Allocate returns the error without undoing the placement
-			sig = "C07-session-allocate-dispatch-refused-keeps-allocation"
-		}
-		law(101, lin, sig)
+		// law at full strength: since fix c8b10ae a Session.Allocate whose dispatch is refused undoes
+		// the placement, so no failure class of this law is a known finding any more
+		law(101, lin, "")
 		if o.Code == 7 {
 			// theorem 6 on the dumps: refused binds / evictions are rolled back, accepted ones logged
 			lin := append([]int64{}, cops...)
